@@ -19,7 +19,7 @@ CONF = dict(
     assumptions=['paths are identified by their index in the offered slice; at most MaxInt64 paths',
                  'the random generator is any finite list of 32-bit words followed by a constant word (every eventually constant stream); a constant tail that is always rejected makes the model answer Hang',
                  'within a history the previous exchange of a client is less than 3 s old and the server is the same (the harness ends a history with the round that finishes more than 2 s after the history began; a history normally takes about 10 ms)',
-                 'a failed client contributes the zero Measurement (offset 0) to the midpoint, as the code does (collectMeasurements leaves its slot untouched)',
+                 'a participant whose exchanges all fail contributes nothing to the midpoint (FaultTolerantMidpoint over ms[:n], n = successes collected); no successful measurement at all gives errNoMeasurement',
                  'reservoir uniformity is stated for exactly uniform draws; the deviation of RandIntn from uniform is the separate near-uniformity theorem',
                  'timestamps of the reported measurement are not modelled (only the offset and the error)'],
     trusted=['modelled, not verified: crypto/rand.Read (reads len(b) bytes from rand.Reader), snet.Fingerprint (equal metadata interfaces <=> equal fingerprint, empty for no metadata), '
@@ -35,11 +35,10 @@ CONF = dict(
                 '(inclusion probability exactly k/n for all k <= n), not per subset (named _partial). The model is tied to the code on every run by replaying generated histories on the '
                 'real MeasureClockOffsetSCION with real SCION clients and by comparing RandIntn/Sample with the model on scripted tapes; the C15 oracle is evaluated on the implementation\'s observations'),
     level_note=('Trusted: Coq kernel, hand-written model validated by the correspondence run, extraction, harness incl. its scripted peer. No hook needed (exported API, replaced rand.Reader, '
-                'recording filter, DSCP as client tag). No axioms. Observation: a participant whose exchanges all fail contributes offset 0 and a round in which every exchange fails '
-                'returns offset 0 without an error (the code ignores the count returned by collectMeasurements).'),
+                'recording filter, DSCP as client tag). No axioms. The earlier behaviour (failed participants counted as offset 0, all-fail round = offset 0 without error) was noticed while this check was built; /repo fixed it in 3dfc5bf; its reverse is one of the regression mutants.'),
     explanation=('oracle clauses per round: every client reaches at most one next hop, all reached hops are offered and pairwise distinct; participants = min(clients, paths); going through the '
                  'clients in order a client in interleaved mode keeps a path with the fingerprint of its previous exchange iff one is still available (then no filter reset, first request '
                  'in interleaved form), otherwise its filter is reset once and its first request is in basic form; errNoPath iff nobody can take part; offset = fault-tolerant midpoint '
-                 'over the participants\' last filter results (0 for a failed one). rand.intn: result in [0,n) and congruent to the accepted word; rand.sample: min(k,n) slots filled from distinct candidates'),
+                 'over the last filter results of the participants that measured something; errNoMeasurement iff none did. rand.intn: result in [0,n) and congruent to the accepted word; rand.sample: min(k,n) slots filled from distinct candidates'),
     timeout_quick=900, timeout_thorough=3000,
 )
